@@ -6,6 +6,7 @@ CONF = {
     'level': 'testing',
     'interesting': ['past-header', 'err-not-short', 'truncated-prefix-of-valid', 'option-length-extreme',
                     'nested-tunnel', 'error-after-add', 'panic-after-add', 'dirty-buffer', 'no-fixlengths'],
+    # histogram-only tag: consistent-length-cut (cases of the consistent-length truncation/extension family)
     'rule': ('Exploration support only (no theorem): one case = one input for one registered layer type '
              '(`in:<layer type id>,<name>/<generator>,<option-set mask>,<hex>`). Domains are derived at run time: layer types by '
              'probing LayerType ids 0..4095 and cross-checking gopacket.DecodersByLayerName; Go types by a go/ast enumeration of '
@@ -14,7 +15,7 @@ CONF = {
              'captures under layers/testdata and pcapgo/tests, the fuzz corpus; each seed is decoded with every registered '
              'first decoder and every layer found contributes (its type, contents++payload) as an input at the offset where '
              'that layer starts. Per input: whole (all 16 option sets), truncated at every length, each of the first 64 bytes '
-             'forced to 00/01/7f/80/ff, length-like bytes/words pushed up and down, tails appended; per decoder: every length '
+             'forced to 00/01/7f/80/ff, length-like bytes/words pushed up and down, tails appended; consistent-length cuts/extensions (tag consistent-length-cut: the input cut by 1..8 and a few random lengths or extended by 1..8 bytes with every 1-4 byte BE/LE field in the first 64 bytes, or within 64 bytes of an inner layer start of the seed, that equalled the total length / length minus its offset / minus 0,4,8,12,20 rewritten to the new extent, and in two further variants also every inner TLV/AVP length field in the last 1 KiB whose end coincided with the end of the input; sampled in quick except cuts of 1..4 bytes, full in thorough); a literal of X_test.go that decodes cleanly as layer type X is a seed input for X even as a single layer; per decoder: every length '
              '0..128 all-zero/all-ff/incrementing/random, larger sizes; every seed whole as first layer of every decoder '
              '(sampled in quick). Each case runs DecodeFromBytes on fresh objects, NewPacket with SkipDecodeRecovery '
              '(eager/lazy x datagrams), DecodingLayerParser{IgnorePanic}, NewPacket with recovery for the option sets in the '
